@@ -188,13 +188,13 @@ def sampler_digest(sc):
         m.generate(1, ["s"], with_values={"t2": 0.25}, seed=5)
     h = hashlib.sha256()
     if sc["kind"] == "rejection":
-        smp = elfi.Rejection(m["d"], batch_size=sc["bs"], seed=sc["seed"], output_names=["s"])
+        smp = elfi.Rejection(m["d"], batch_size=sc["bs"], seed=sc["seed"], output_names=["s"], **sc.get("sampler_kw", {}))
         res = smp.sample(sc["n"], bar=False, **sc["objective"])
         if sc.get("second_call"):       # the same sampler object asked again: same configuration, same result
             res = smp.sample(sc["n"], bar=False, **sc["objective"])
         pops = [res]
     else:
-        res = elfi.SMC(m["d"], batch_size=sc["bs"], seed=sc["seed"]).sample(sc["n"], bar=False, **sc["objective"])
+        res = elfi.SMC(m["d"], batch_size=sc["bs"], seed=sc["seed"], **sc.get("sampler_kw", {})).sample(sc["n"], bar=False, **sc["objective"])
         pops = res.populations
     for p in pops:
         for k in sorted(p.outputs):
@@ -241,6 +241,20 @@ def record_sampler(sc):
     sc["pre_point"] = True
     one("after-a-point-evaluation-on-the-same-model", [])
     sc["pre_point"] = False
+    # "regardless of which client executes it": a client that keeps several batches outstanding (answers `not ready` while
+    # the sampler may still submit, so max_parallel_batches are pending whenever a population or the run ends) - deterministic,
+    # unlike the timing of real worker processes
+    import elfi.client
+    from harness.sched_client import ScheduledClient
+    for maxpar, p_ready in ((4, 0.0), (3, 0.3)):
+        old = elfi.client._client
+        elfi.client.set_client(ScheduledClient(seed=sc["hseed"] % 1000, p_ready=p_ready, p_run=0.5, cores=maxpar))
+        sc["sampler_kw"] = dict(max_parallel_batches=maxpar)
+        try:
+            one("parallel-client-keeping-%d-batches-outstanding" % maxpar, [])
+        finally:
+            sc.pop("sampler_kw", None)
+            elfi.client.set_client(old)
     if sc.get("mp"):
         import elfi.client
         old = elfi.client._client
